@@ -44,17 +44,18 @@ theorem eq_of_key_eq {l : List Tr} (hn : (l.map (·.key)).Nodup) {a b : Tr} (ha 
       · exfalso; have := hn.1 a ha'; omega
       · exact ih hn.2 ha' hb'
 
-theorem find_applyAll_ne {ts : List Tr} : ∀ {db : DB} {k : Nat}, k ∉ ts.map (·.key) → find (applyAll db ts) k = find db k := by
-  induction ts with
-  | nil => intro db k _; rfl
-  | cons t r ih =>
-    intro db k hk
-    simp at hk
-    simp only [applyAll, List.foldl_cons]
-    have := ih (db := applyTr db t) (k := k) (by simpa using hk.2)
-    simp only [applyAll] at this
-    rw [this, find_applyTr_ne hk.1]
+theorem find_applyAll_ne {ts : List Tr} {db : DB} {k : Nat} (h : k ∉ ts.map (·.key)) : find (applyAll db ts) k = find db k :=
+  find_applyAll_ne' h
 
+theorem eff_core {a b : Tr} (h : core a = core b) : eff a = eff b := by
+  simp [core] at h
+  obtain ⟨_, ha, hv, _, _⟩ := h
+  funext old
+  unfold eff
+  rw [ha, hv]
+
+theorem key_core {a b : Tr} (h : core a = core b) : a.key = b.key := by
+  simp [core] at h; exact h.1
 
 /-! ### lock records -/
 
@@ -165,9 +166,12 @@ structure Disj (S : Setting) (s : State) : Prop where
   untouched : ∀ i, i < S.n → (s.ws i).installed = false → ∀ t ∈ S.spec i, find s.db t.key = find S.db0 t.key
   tracked_core : ∀ i, i < S.n → (s.ws i).tracked.map core = (S.spec i).map core
   pending_core : ∀ i, i < S.n → (s.ws i).pending.map core = (S.spec i).map core
-  results : ∀ i, i < S.n → ∀ r, (s.ws i).pc = .done r → r = .ok ∨ r = .errRetries
+  results : ∀ i, i < S.n → ∀ r, (s.ws i).pc = .done r → (r = .ok ∧ (s.ws i).installed = true) ∨ r = .errRetries
   nofault : ∀ i, i < S.n → (s.ws i).fault = .none
   locks : LocksOwned S.n s.itemLocks s.ws
+  uniq : UniqueKeys s.db
+  written : ∀ i, i < S.n → (s.ws i).installed = true → ∀ t ∈ S.spec i, valAt s.db t.key = eff t (valAt S.db0 t.key)
+  foreign : ∀ k, (∀ i, i < S.n → k ∉ (S.spec i).map (·.key)) → find s.db k = find S.db0 k
 
 section
 variable {S : Setting} (hS : S.OK)
@@ -277,10 +281,10 @@ theorem Disj.update {S : Setting} {s s' : State} (h : Disj S s) (i : Nat) (w : W
     (hinst : w.installed = (s.ws i).installed)
     (htc : w.tracked.map core = (s.ws i).tracked.map core)
     (hpc : w.pending.map core = (s.ws i).pending.map core)
-    (hres : ∀ r, w.pc = .done r → r = .ok ∨ r = .errRetries)
+    (hres : ∀ r, w.pc = .done r → r = .errRetries)
     (hf : w.fault = (s.ws i).fault)
     (hl : LocksOwned S.n s'.itemLocks s'.ws) : Disj S s' := by
-  refine ⟨?_, ?_, ?_, ?_, ?_, hl⟩
+  refine ⟨?_, ?_, ?_, ?_, ?_, hl, hdb ▸ h.uniq, ?_, ?_⟩
   · intro j hj; rw [hws, hdb]; by_cases hji : j = i
     · subst hji; simp only [if_true]; rw [hinst]; exact h.untouched j hj
     · simp only [hji, if_false]; exact h.untouched j hj
@@ -291,11 +295,15 @@ theorem Disj.update {S : Setting} {s s' : State} (h : Disj S s) (i : Nat) (w : W
     · subst hji; simp only [if_true]; rw [hpc]; exact h.pending_core j hj
     · simp only [hji, if_false]; exact h.pending_core j hj
   · intro j hj; rw [hws]; by_cases hji : j = i
-    · subst hji; simp only [if_true]; exact hres
+    · subst hji; simp only [if_true]; intro r hr; exact Or.inr (hres r hr)
     · simp only [hji, if_false]; exact h.results j hj
   · intro j hj; rw [hws]; by_cases hji : j = i
     · subst hji; simp only [if_true]; rw [hf]; exact h.nofault j hj
     · simp only [hji, if_false]; exact h.nofault j hj
+  · intro j hj; rw [hws, hdb]; by_cases hji : j = i
+    · subst hji; simp only [if_true]; rw [hinst]; exact h.written j hj
+    · simp only [hji, if_false]; exact h.written j hj
+  · intro k hk; rw [hdb]; exact h.foreign k hk
 
 theorem effectiveFault_none {w : Writer} (h : w.fault = .none) : effectiveFault w = .none := by
   unfold effectiveFault; rw [h]
@@ -310,8 +318,9 @@ theorem Disj.install {s s' : State} (h : Disj S s) {i : Nat} (hi : i < S.n) (w :
     (hws : s'.ws = fun j => if j = i then { w with pc := .done .ok, nodeKeys := [] } else s.ws j)
     (hil : s'.itemLocks = unlockTracked s.itemLocks w.tracked)
     (hins : w.installed = true) (ht : w.tracked = (s.ws i).tracked) (hp : w.pending = (s.ws i).pending)
-    (hf : w.fault = (s.ws i).fault) : Disj S s' := by
-  refine ⟨?_, ?_, ?_, ?_, ?_, ?_⟩
+    (hf : w.fault = (s.ws i).fault) (hni : (s.ws i).installed = false) : Disj S s' := by
+  obtain ⟨hpn, hpv⟩ := pending_valid hS h hi hni
+  refine ⟨?_, ?_, ?_, ?_, ?_, ?_, ?_, ?_, ?_⟩
   · intro j hj; rw [hws, hdb]; by_cases hji : j = i
     · subst hji; simp only [if_true]; intro hfalse; rw [hins] at hfalse; cases hfalse
     · simp only [hji, if_false]
@@ -327,15 +336,35 @@ theorem Disj.install {s s' : State} (h : Disj S s) {i : Nat} (hi : i < S.n) (w :
     · subst hji; simp only [if_true]; rw [hp]; exact h.pending_core j hj
     · simp only [hji, if_false]; exact h.pending_core j hj
   · intro j hj; rw [hws]; by_cases hji : j = i
-    · subst hji; simp
+    · subst hji; simp [hins]
     · simp only [hji, if_false]; exact h.results j hj
   · intro j hj; rw [hws]; by_cases hji : j = i
     · subst hji; simp only [if_true]; rw [hf]; exact h.nofault j hj
     · simp only [hji, if_false]; exact h.nofault j hj
   · rw [hws, hil]; exact locks_finish h.locks ht
+  · rw [hdb]; exact uniqueKeys_applyAll h.uniq hpn hpv
+  · intro j hj; rw [hws, hdb]; by_cases hji : j = i
+    · subst hji; simp only [if_true]
+      intro _ t htj
+      obtain ⟨t', ht', hc⟩ := mem_of_core (h.pending_core j hj).symm htj
+      have := valAt_applyAll_own h.uniq hpn hpv t' ht'
+      rw [key_core hc] at this
+      rw [this, eff_core hc]
+      unfold valAt
+      rw [h.untouched j hj hni t htj]
+    · simp only [hji, if_false]
+      intro hinj t htj
+      unfold valAt
+      rw [find_applyAll_ne]
+      · exact h.written j hj hinj t htj
+      · rw [keys_of_core (h.pending_core i hi)]
+        exact hS.disjoint j i hj hi hji _ (List.mem_map_of_mem htj)
+  · intro k hk; rw [hdb, find_applyAll_ne]
+    · exact h.foreign k hk
+    · rw [keys_of_core (h.pending_core i hi)]; exact hk i hi
 
 theorem commitPhase_disj {s : State} (h : Disj S s) {i : Nat} (hi : i < S.n) (hact : active (s.ws i))
-    (locks : List (Nat × Nat)) : Disj S (commitPhase { s with pageLocks := locks } i (s.ws i)) := by
+    (hni : (s.ws i).installed = false) (locks : List (Nat × Nat)) : Disj S (commitPhase { s with pageLocks := locks } i (s.ws i)) := by
   unfold commitPhase
   simp only
   split
@@ -344,7 +373,7 @@ theorem commitPhase_disj {s : State} (h : Disj S s) {i : Nat} (hi : i < S.n) (ha
     rw [hef]
     simp only
     exact Disj.install hS h hi { s.ws i with passes := (s.ws i).passes + 1, installed := true }
-      (by simp [finish, State.setW]) (by simp [finish, State.setW]) (by simp [finish, State.setW]) rfl rfl rfl rfl
+      (by simp [finish, State.setW]) (by simp [finish, State.setW]) (by simp [finish, State.setW]) rfl rfl rfl rfl hni
   · split
     · apply Disj.update h i { s.ws i with passes := (s.ws i).passes + 1, retry := (s.ws i).retry + 1, pc := .done .errRetries, nodeKeys := [] }
       · simp [finish, State.setW]
@@ -352,7 +381,7 @@ theorem commitPhase_disj {s : State} (h : Disj S s) {i : Nat} (hi : i < S.n) (ha
       · rfl
       · rfl
       · rfl
-      · intro r hr; simp at hr; exact Or.inr hr.symm
+      · intro r hr; simp at hr; exact hr.symm
       · rfl
       · have := locks_finish (r := .errRetries) (w := { s.ws i with passes := (s.ws i).passes + 1, retry := (s.ws i).retry + 1 }) (i := i) h.locks rfl
         simpa [finish, State.setW] using this
@@ -438,13 +467,13 @@ theorem step_disj {n' : Nat} {s : State} (h : Disj S s) (hp : Prog n' s) {i : Na
     split
     · have := refetch_disj hS h hi hact (not_installed_of_active hp hact) s.pageLocks adv
       simpa using this
-    · have := commitPhase_disj hS h hi hact s.pageLocks
+    · have := commitPhase_disj hS h hi hact (not_installed_of_active hp hact) s.pageLocks
       simpa using this
   | atDual =>
     have hact : active (s.ws i) := by intro r; simp [hpc]
     simp only
     split
-    · exact commitPhase_disj hS h hi hact _
+    · exact commitPhase_disj hS h hi hact (not_installed_of_active hp hact) _
     · apply Disj.update h i { s.ws i with needsRefetch := true, pc := .atLock }
       · simp [State.setW]
       · simp [State.setW]
